@@ -1,3 +1,57 @@
-import Atomman.C05
+/-
+  C05 — property theorems for the model of `System.wrap` / `atomman.lammps.normalize`
+  (lean/Atomman/C05.lean).  `K` is any linearly ordered field (ℚ, ℝ, …).
+-/
+import Proofs.C05_Lemmas
+
 namespace Atomman.C05
+open Atomman
+set_option linter.unusedSimpArgs false
+set_option linter.unusedSectionVars false
+set_option linter.unusedVariables false
+
+variable {K : Type} [Field K] [LinearOrder K] [IsStrictOrderedRing K]
+
+/-! ## wrap -/
+
+/-- **wrap_reconstruct**: the returned image flags reconstruct the original positions with the original
+    cell vectors, and are zero along non-periodic directions (atoms are not moved there). -/
+theorem wrap_reconstruct (fl : K → Int) (pad : K) (b : Box K) (hdet : M3.det b.vects ≠ 0) (pbc : V3 Bool)
+    (pos : List (V3 K)) :
+    List.zipWith (fun p' f => p' + latticeVec b.vects f) (wrap fl pad b pbc pos).pos (wrap fl pad b pbc pos).flags
+      = pos ∧
+    (wrap fl pad b pbc pos).pos.length = pos.length ∧ (wrap fl pad b pbc pos).flags.length = pos.length ∧
+    ∀ f ∈ (wrap fl pad b pbc pos).flags,
+      (pbc.x = false → f.x = 0) ∧ (pbc.y = false → f.y = 0) ∧ (pbc.z = false → f.z = 0) := by
+  refine ⟨?_, by simp [wrap], by simp [wrap], ?_⟩
+  · simp only [wrap, List.zipWith_map_left, List.zipWith_map_right, List.zipWith_self]
+    conv_rhs => rw [← List.map_id pos]
+    apply List.map_congr_left
+    intro p _
+    exact atom_reconstruct fl b hdet pbc p
+  · intro f hf
+    simp only [wrap, List.mem_map] at hf
+    obtain ⟨p, _, rfl⟩ := hf
+    exact atomFlags_nonperiodic fl b pbc p
+
+/-- **wrap_inside**: after `wrap` every atom is inside the new box (faces included). -/
+theorem wrap_inside (fl : K → Int) (hfl : IsFloor fl) (pad : K) (hpad : 0 < pad) (b : Box K)
+    (hdet : M3.det b.vects ≠ 0) (pbc : V3 Bool) (pos : List (V3 K)) :
+    ∀ p' ∈ (wrap fl pad b pbc pos).pos, insideRel ((wrap fl pad b pbc pos).box.cartToRel p') := by
+  intro p' hp'
+  simp only [wrap, List.mem_map] at hp'
+  obtain ⟨p, hp, rfl⟩ := hp'
+  have e := wrap_cartToRel fl pad hpad b hdet pbc pos p
+  rw [e]
+  have mx : (b.cartToRel p).x ∈ (pos.map b.cartToRel).map (·.x) :=
+    List.mem_map.mpr ⟨_, List.mem_map.mpr ⟨p, hp, rfl⟩, rfl⟩
+  have my : (b.cartToRel p).y ∈ (pos.map b.cartToRel).map (·.y) :=
+    List.mem_map.mpr ⟨_, List.mem_map.mpr ⟨p, hp, rfl⟩, rfl⟩
+  have mz : (b.cartToRel p).z ∈ (pos.map b.cartToRel).map (·.z) :=
+    List.mem_map.mpr ⟨_, List.mem_map.mpr ⟨p, hp, rfl⟩, rfl⟩
+  obtain ⟨_, x0, x1, _⟩ := axis_unit fl hfl pad hpad pbc.x _ _ mx
+  obtain ⟨_, y0, y1, _⟩ := axis_unit fl hfl pad hpad pbc.y _ _ my
+  obtain ⟨_, z0, z1, _⟩ := axis_unit fl hfl pad hpad pbc.z _ _ mz
+  exact ⟨x0, x1.le, y0, y1.le, z0, z1.le⟩
+
 end Atomman.C05
